@@ -369,4 +369,59 @@ theorem contInv_run {cfg : Cfg} : ∀ (ls : List Label) (s s' : State), Inv cfg 
     · rename_i s1 hs1
       exact ih s1 s' (step_inv l hi hs1).1 (contInv_step l hi hc hs1) h
 
+/-! ### runs without a continuous source -/
+
+/-- no continuous source: nothing left to hand out and neither continuous source tasks nor flush tasks -/
+def NoCont (s : State) : Prop := s.contPool = [] ∧ ∀ t, sig (s.tasks t) = .other
+
+theorem step_contPool {cfg : Cfg} {s s' : State} (l : Label) (h : step cfg s l = some s') (hl : SigNeutral l) :
+    s'.contPool = s.contPool := by
+  cases l with
+  | launchCont t => exact absurd hl id
+  | contFinish t fl => exact absurd hl id
+  | flushFinish t => exact absurd hl id
+  | launchBatch src t => obtain ⟨_, _, _, _, e⟩ := step_launchBatch h; rw [e]
+  | acquire t => obtain ⟨_, _, _, e⟩ := step_acquire h; rw [e]
+  | enqueue t => obtain ⟨_, _, e⟩ := step_enqueue h; rw [e]
+  | execSource t b t' => obtain ⟨_, _, _, _, _, _, _, e⟩ := step_execSource h; rw [e]
+  | contGen t g k => obtain ⟨_, _, _, _, _, _, _, _, _, e⟩ := step_contGen h; rw [e]
+  | contOverflow t g b t' => obtain ⟨_, _, _, _, _, _, _, _, _, e⟩ := step_contOverflow h; rw [e]
+  | flushOne t g b t' => obtain ⟨_, _, _, _, _, _, _, _, e⟩ := step_flushOne h; rw [e]
+  | execTraverse t fates res =>
+    obtain ⟨b0, buf, s1, li, ls, _, _, _, _, hfold, e⟩ := step_execTraverse h
+    have hf := fold_cont hfold
+    rw [e]; exact hf.1
+  | execReemit t keep t' =>
+    obtain ⟨_, _, _, _, _, hcase⟩ := step_execReemit h
+    rcases hcase with ⟨_, e⟩ | ⟨_, _, _, e⟩ <;> rw [e]
+  | premature g t' => obtain ⟨_, _, _, _, _, _, _, e⟩ := step_premature h; rw [e]
+  | checkTermination => obtain ⟨_, _, e⟩ := step_checkTermination h; rw [e]
+
+theorem noCont_step {cfg : Cfg} {s s' : State} (l : Label) (h : step cfg s l = some s') (hn : NoCont s) : NoCont s' := by
+  by_cases hl : SigNeutral l
+  · exact ⟨by rw [step_contPool l h hl]; exact hn.1, fun t => by rw [step_sig l h hl t]; exact hn.2 t⟩
+  · exfalso
+    cases l with
+    | launchCont t => obtain ⟨hne, _⟩ := step_launchCont h; exact hne hn.1
+    | contFinish t fl =>
+      obtain ⟨c, n, s2, hk, _⟩ := step_contFinish h
+      have := hn.2 t; rw [hk] at this; simp at this
+    | flushFinish t =>
+      obtain ⟨c, hk, _⟩ := step_flushFinish h
+      have := hn.2 t; rw [hk] at this; simp at this
+    | launchBatch src t => exact hl trivial
+    | acquire t => exact hl trivial
+    | enqueue t => exact hl trivial
+    | execSource t b t' => exact hl trivial
+    | contGen t g k => exact hl trivial
+    | contOverflow t g b t' => exact hl trivial
+    | flushOne t g b t' => exact hl trivial
+    | execTraverse t fates res => exact hl trivial
+    | execReemit t keep t' => exact hl trivial
+    | premature g t' => exact hl trivial
+    | checkTermination => exact hl trivial
+
+theorem noCont_init (srcIds : Nat → List Nat) : NoCont (init srcIds []) :=
+  ⟨rfl, fun _ => rfl⟩
+
 end CMacVerif.Photon
